@@ -1,7 +1,7 @@
 (* C08: lemmas about association lists, subscription rows, the store primitives and
-   the load path, on which the coherence proofs (TopicCohStep.v) build. *)
+   the load path, on which the coherence proofs (TopicCohC08Step.v) build. *)
 From Coq Require Import ZArith NArith List Bool Lia.
-From Tinode Require Import Base.Util Pure.Acs Sys.Topic Sys.TopicTac Sys.TopicFrame Sys.TopicCoh.
+From Tinode Require Import Base.Util Pure.Acs Sys.Topic Sys.TopicTac Sys.TopicFrame Sys.TopicCohC08.
 Import ListNotations.
 Open Scope Z_scope.
 
